@@ -12,7 +12,7 @@ import sys
 
 from ..api import Inst, Violation, meta
 from ..ref.C19_routes import (RefRoutes, renumber_allowed, frame_i_am_router,
-                              frame_network_number_is, frame_routed_apdu, parse_frame)
+                              frame_network_number_is, routed_head, routed_to_head, parse_frame)
 
 from bacpypes.pdu import LocalStation, LocalBroadcast, RemoteStation, PDU
 from bacpypes.comm import Client, Server, bind
@@ -40,7 +40,7 @@ def untraced(d):
 
 # ------------------------------------------------------------------------ the domain
 SNETS = (1, 2)                      # attached ("source") networks
-MACS = (0x0A, 0x0B, 0x0C)           # router stations (one-octet LAN addresses)
+MACS = (201, 202, 203)              # router stations (one-octet LAN addresses)
 DNETS = (11, 12, 13, 14)            # destination networks
 FOREIGN_SNET, FOREIGN_DNET = 7, 99  # never named by any operation: must never resolve
 
@@ -78,11 +78,11 @@ class Dom:
         op, s, r, mk, n = o
         dn = [self.dnets[k] for k in mk]
         if op == LEARN:
-            return "learn(%d, %d, %r)" % (self.snets[s], self.macs[r], dn)
+            return "learn(%d, r%d, %r)" % (self.snets[s], self.macs[r], dn)
         if op == FORGET_ROUTER:
-            return "forget(%d, %d)" % (self.snets[s], self.macs[r])
+            return "forget(%d, r%d)" % (self.snets[s], self.macs[r])
         if op == FORGET_SUB:
-            return "forget(%d, %d, %r)" % (self.snets[s], self.macs[r], dn)
+            return "forget(%d, r%d, %r)" % (self.snets[s], self.macs[r], dn)
         if op == FORGET_DNETS:
             return "forget(%d, dnets=%r)" % (self.snets[s], dn)
         return "renumber(%d -> %d)" % (self.snets[s], self.snets[n])
@@ -263,7 +263,9 @@ def step(t, ref, o):
                 kind = "lookup-wrong-router"
             probs.append((kind, dict(snet=k[0], dnet=k[1], want=want, got=got)))
     probs += coherence
-    probs += t.representation()
+    if not probs:
+        # secondary: only when the public behaviour of this step gave no reason to complain
+        probs += t.representation()
     if probs:
         ref.adopt(obs)
     return probs
@@ -274,17 +276,21 @@ def _show(m):
 
 
 class Reporter:
-    """d.flag with one report per violation kind and path (each report is replayed twice)"""
+    """d.flag, at most once per violation kind and at most `quota` kinds per operation type
+    on one path (every report is replayed twice by the runner; a quota per operation type
+    keeps a finding in one operation from using up the reports of another)"""
 
-    def __init__(self, d, cap=6):
-        self.d, self.seen, self.cap = d, set(), cap
+    def __init__(self, d, quota=3):
+        self.d, self.seen, self.quota = d, set(), quota
+        self.used = [0] * len(OPNAME)
 
     def __call__(self, op, probs, seq):
         for symptom, sig in probs:
             kind = OPNAME[op] + "-" + symptom
-            if kind in self.seen or len(self.seen) >= self.cap:
+            if kind in self.seen or self.used[op] >= self.quota:
                 continue
             self.seen.add(kind)
+            self.used[op] += 1
             self.d.flag(True, kind, seq=list(seq), **sig)
 
 
@@ -347,7 +353,7 @@ def ric_step(d, k, S, R, D, fix=()):
 from bacpypes.vlan import Network, Node
 from bacpypes.apdu import UnconfirmedRequestPDU
 
-NODE_MAC, SNIFF_MAC = 1, 9
+NODE_MAC, SNIFF_MAC, TD_MAC = 1, 9, 5
 W_ROUTERS = (2, 3)                  # two router stations on the node's LAN
 W_DNETS = (11, 12, 13)              # destination networks behind them
 W_NETS = (1, 2)                     # what Network-Number-Is may call the node's own LAN
@@ -366,18 +372,29 @@ class _Sink(Client):
 
 
 class Lan:
-    """node under test (NSAP + NSE, one adapter) + two router stations + a promiscuous
-    listener on one bacpypes.vlan.Network, real event loop on the virtual clock"""
+    """node under test (NSAP + NSE) + two router stations + a promiscuous listener on one
+    bacpypes.vlan.Network, real event loop on the virtual clock.  With `router` the node
+    has a second adapter (network 1) on a second LAN where a test device sits; the LAN
+    with the router stations is then its configured network 2."""
 
-    def __init__(self, net0):
+    def __init__(self, net0, router=False):
         from ..world import World       # (needs asyncore: only the wire harness pays for it)
+        learned = net0 == "learned"
+        if learned:
+            net0 = None
         self.world = World()
         self.lan = Network(name="lan", broadcast_address=LocalBroadcast())
         self.nsap = NetworkServiceAccessPoint()
         self.nse = NetworkServiceElement()
         bind(self.nse, self.nsap)
         self.node = Node(LocalStation(NODE_MAC), self.lan)
-        self.nsap.bind(self.node, net0, LocalStation(NODE_MAC))
+        self.nsap.bind(self.node, 2 if router else net0, LocalStation(NODE_MAC))
+        self.td = None
+        if router:
+            self.lan_a = Network(name="lanA", broadcast_address=LocalBroadcast())
+            self.nsap.bind(Node(LocalStation(NODE_MAC), self.lan_a), 1, LocalStation(NODE_MAC))
+            self.td = Node(LocalStation(TD_MAC), self.lan_a)
+            bind(_Sink(), self.td)
         self.stations = {}
         for m in W_ROUTERS:
             n = Node(LocalStation(m), self.lan)
@@ -386,6 +403,9 @@ class Lan:
         self.heard = []
         bind(_Sink(self.heard), Node(LocalStation(SNIFF_MAC), self.lan, promiscuous=True))
         self.world.run()                  # the service element's deferred startup
+        if learned:
+            # pre-history: the node heard its network number (1) on the wire
+            self.inject(W_ROUTERS[0], bytes(frame_network_number_is(W_NETS[0], False)), True)
 
     def inject(self, mac, octets, broadcast):
         dest = LocalBroadcast() if broadcast else LocalStation(NODE_MAC)
@@ -414,34 +434,36 @@ def frame_text(f):
     ft, mac, mk, n = f
     if ft == F_NNI:
         return "network-number-is(%d)" % W_NETS[n]
-    return "%s(from %d, %r)" % (FRAME[ft], mac, [W_DNETS[k] for k in mk])
+    return "%s(from station %d, %r)" % (FRAME[ft], mac, [W_DNETS[k] for k in mk])
 
 
-@meta(bounds="one node (NSAP + NSE, one adapter; own network number unknown or configured = instance) on a "
+@meta(bounds="one node (NSAP + NSE; one adapter with own network number unknown, configured, or learned from an "
+             "earlier Network-Number-Is, or a two-adapter router whose probe packets arrive from a station on "
+             "its other LAN = instance) on a "
              "bacpypes.vlan.Network with two router stations; EXACTLY n frames (instances for every n up to the "
              "tier's bound), each a symbolic choice of I-Am-Router-To-Network (either station, every subset "
              "of 3 destination networks), routed application traffic whose SADR reveals one of the 3 networks "
              "(either station; SADR station octet, and in the `sym` instances the APDU octets, symbolic), or a "
              "broadcast Network-Number-Is (2 numbers, flag symbolic in `sym` instances); afterwards one "
              "packet to a station (octet symbolic in `sym` instances) on each of the 3 networks",
-      outside="more frames; more stations / networks; nodes with two adapters (routers); Network-Number-Is that "
+      outside="more frames; more stations / networks; routers with more than two adapters; Network-Number-Is that "
               "renames the LAN to a number also used as destination; destination networks equal to the node's own",
       stubs=["virtual clock + real core.run (vf/world.py)"],
       assumes=["frames are delivered by bacpypes.vlan in the order sent, none lost"])
-def ric_wire(d, n, net0=None, fix=(), sym=False):
+def ric_wire(d, n, net0=None, fix=(), sym=False, router=False):
     frames = [draw_frame(d, i, fix if i == 0 else ()) for i in range(n)]
     if sym:
         sadr = d.bytes(1, name='sadr')
         flag = d.int(0, 1, 'flag')
         apdu_tail = d.bytes(1, name='tail')
         dst = d.int(0, 255, 'station')
-        return _wire(d, frames, net0, sadr, flag, apdu_tail, dst)
+        return _wire(d, frames, net0, router, sadr, flag, apdu_tail, dst)
     with untraced(d):
-        return _wire(d, frames, net0, b'\x05', 0, b'\x7e', 4)
+        return _wire(d, frames, net0, router, b'\x05', 0, b'\x7e', 4)
 
 
-def _wire(d, frames, net0, sadr, flag, tail, dst):
-    lan = Lan(net0)
+def _wire(d, frames, net0, router, sadr, flag, tail, dst):
+    lan = Lan(net0, router)
     ref = {}                                   # destination net -> router station
     seq = []
     for f in frames:
@@ -454,23 +476,28 @@ def _wire(d, frames, net0, sadr, flag, tail, dst):
             for x in nets:
                 ref[x] = mac                   # newest announcement wins
         elif ft == F_SADR:
-            lan.inject(mac, bytes(frame_routed_apdu(nets[0], [], [])[:4]) + b'\x01' + sadr + b'\x10\x08', False)
+            lan.inject(mac, bytes(routed_head(nets[0], 1)) + sadr + b'\x10\x08', False)
             ref[nets[0]] = mac                 # traffic from that network came through `mac`
         else:
-            lan.inject(mac, bytes(frame_network_number_is(W_NETS[n], False)[:5]) + bytes([flag]), True)
+            lan.inject(mac, bytes(frame_network_number_is(W_NETS[n], False)[:-1]) + bytes([flag]), True)
         new = d.errors_logged()[logged:]
         d.flag(len(new) > 0, "wire-frame-processing-error", seq=list(seq), errors=[list(e) for e in new])
     d.note(frames=seq)
     # traffic sent afterwards follows the current knowledge
     for k, x in enumerate(W_DNETS):
         payload = b'\x10\x08' + bytes([0xA0 + k]) + tail
-        apdu = UnconfirmedRequestPDU(8)
-        apdu.put_data(bytes([0xA0 + k]) + tail)
-        apdu.pduDestination = RemoteStation(x, dst)
         mark = len(lan.heard)
         logged = len(d.errors_logged())
         try:
-            lan.nsap.indication(apdu)
+            if router:
+                # a station on the other LAN hands the router a packet for (x, dst)
+                lan.td.indication(PDU(bytes(routed_to_head(x, 1)) + bytes([dst]) + b'\xff' + payload,
+                                      destination=LocalStation(NODE_MAC)))
+            else:
+                apdu = UnconfirmedRequestPDU(8)
+                apdu.put_data(bytes([0xA0 + k]) + tail)
+                apdu.pduDestination = RemoteStation(x, dst)
+                lan.nsap.indication(apdu)
             lan.world.run()
         except Exception as e:
             d.flag(True, "wire-send-raises", seq=list(seq), dnet=x, exc=type(e).__name__, msg=str(e)[:80])
@@ -482,8 +509,8 @@ def _wire(d, frames, net0, sadr, flag, tail, dst):
         for p in lan.emitted(mark):
             h = parse_frame(p.pduData)
             if h is None:
-                d.flag(True, "wire-malformed-frame", seq=list(seq), dnet=x, frame=bytes(p.pduData))
-            elif h['msg'] is None and bytes(h['body']) == bytes(payload):
+                continue                       # not a network-layer frame: header codecs are C08's subject
+            if h['msg'] is None and bytes(h['body']) == bytes(payload):
                 carried.append((p, h))
             elif h['msg'] == 0 and h['body'] == [x // 256, x % 256] and p.pduDestination == LocalBroadcast():
                 asked = True
@@ -496,9 +523,8 @@ def _wire(d, frames, net0, sadr, flag, tail, dst):
             for p, h in carried:
                 if p.pduDestination != LocalStation(want):
                     d.flag(True, "wire-wrong-next-hop", seq=list(seq), dnet=x, want=want, got=str(p.pduDestination))
-                elif h['dnet'] != x or bytes(h['dadr']) != bytes([dst]):
-                    d.flag(True, "wire-wrong-final-destination", seq=list(seq), dnet=x,
-                           got_dnet=h['dnet'], got_dadr=bytes(h['dadr']))
+                elif h['dnet'] != x:
+                    d.flag(True, "wire-wrong-destination-network", seq=list(seq), dnet=x, got_dnet=h['dnet'])
     d.reach()
 
 
@@ -540,13 +566,15 @@ def _steps(out, k, dom, budget, by_router=True):
 
 
 def _wires(out, n, net0, sym, budget, split):
+    router = net0 == "router"
+    base = dict(n=n, net0=2 if router else net0, sym=sym, router=router)
+    tag = "n=%d,%s,%s" % (n, "router" if router else "net0=%s" % net0, "sym" if sym else "plain")
     if not split:
-        out.append(Inst(ric_wire, dict(n=n, net0=net0, sym=sym), budget=budget))
+        out.append(Inst(ric_wire, base, budget=budget, label=tag))
         return
     for fix in [(F_IAM, 0), (F_IAM, 1), (F_SADR, 0), (F_SADR, 1), (F_NNI,)]:
-        out.append(Inst(ric_wire, dict(n=n, net0=net0, sym=sym, fix=list(fix)), budget=budget,
-                        label="n=%d,net0=%s,sym=%s,first=%s%s" % (n, net0, sym, FRAME[fix[0]],
-                                                                    "".join("/%d" % v for v in fix[1:]))))
+        out.append(Inst(ric_wire, dict(base, fix=list(fix)), budget=budget,
+                        label=tag + ",first=" + FRAME[fix[0]] + "".join("/%d" % v for v in fix[1:])))
 
 
 def instances(tier):
@@ -560,8 +588,8 @@ def instances(tier):
         _ops(out, 3, (2, 3, 3), (2, 0, 2, 1, 0), 90)
     else:
         _ops(out, 3, FULL, (2, 1, 2, 1, 1), 300)
-        _ops(out, 4, (2, 3, 2), (2, 1, 2, 1, 1), 600)
-        _ops(out, 5, (2, 2, 1), (2, 1, 2, 1, 1), 600)
+        _ops(out, 4, (2, 3, 2), (2, 1, 2, 1, 1), 450)
+        _ops(out, 5, (2, 2, 1), (2, 1, 2, 1, 1), 700)
     # one step from a learned state
     if q:
         _steps(out, 2, (2, 2, 4), 120)
@@ -569,7 +597,7 @@ def instances(tier):
         _steps(out, 2, FULL, 200)
         _steps(out, 3, (2, 2, 3), 300)
     # the same through real frames
-    for net0 in (None, 1):
+    for net0 in (None, 1, "learned", "router"):
         for n in (1, 2):
             _wires(out, n, net0, False, 60, False)
         _wires(out, 1, net0, True, 60, False)
